@@ -66,7 +66,10 @@ def run(ctx):
     if len(sloop) != 1:
         raise AnalysisError('lint_files_glob: serial loop not found')
     scall = [c for c in ast.walk(sloop[0]) if isinstance(c, ast.Call) and X.call_name_of(c) == 'check_and_fix_file']
-    pcalls = [c for st in par for c in ast.walk(st) if isinstance(c, ast.Call) and X.dotted_attr(c.func) == 'q.call']
+    # the work queue is the name bound by `with workqueue(...) as <q>`
+    qn = next((ast.unparse(i.optional_vars) for st in par if isinstance(st, ast.With) for i in st.items
+               if i.optional_vars is not None and 'workqueue' in ast.unparse(i.context_expr)), 'q')
+    pcalls = [c for st in par for c in ast.walk(st) if isinstance(c, ast.Call) and X.dotted_attr(c.func) == f'{qn}.call']
     if len(scall) != 1 or len(pcalls) != 1:
         raise AnalysisError('lint_files_glob: work calls not found')
     pcomp = [n for st in par for n in ast.walk(st) if isinstance(n, (ast.ListComp, ast.GeneratorExp)) and pcalls[0] in list(ast.walk(n))]
@@ -82,11 +85,12 @@ def run(ctx):
     (ctx.judge('R2', 'same work per file', facts=facts) if ok else
      ctx.violation('R2', 'lint_files_glob:branch-args', f'{g.module.relpath}:{pcalls[0].lineno}',
                    f'serial branch calls check_and_fix_file{s_args}, parallel branch calls {p_fn}{p_args}', facts=facts))
-    ok = ast.unparse(sloop[0].iter) == ast.unparse(pgen.iter) == 'files' and not pgen.ifs
+    fln = (X.names_assigned_from(g.node, 'find_paths(') or X.names_assigned_from(g.node, 'glob') or ['files'])[0]
+    ok = ast.unparse(sloop[0].iter) == ast.unparse(pgen.iter) == fln and not pgen.ifs
     (ctx.judge('R2', 'same file list', facts=facts) if ok else
      ctx.violation('R2', 'lint_files_glob:file-list', g.where, f'serial iterates {facts["serial_iter"]}, parallel {facts["parallel_iter"]}'
                    f'{" with filter" if pgen.ifs else ""}'))
-    files_assign = [n for n in g.node.body if isinstance(n, ast.Assign) and ast.unparse(n.targets[0]) == 'files']
+    files_assign = [n for n in g.node.body if isinstance(n, ast.Assign) and ast.unparse(n.targets[0]) == fln]
     (ctx.judge('R2', 'files computed once') if len(files_assign) == 1 and g.node.body.index(files_assign[0]) < g.node.body.index(top_if[0]) else
      ctx.violation('R2', 'lint_files_glob:files', g.where, 'the file list is not computed once before branching'))
     # R1
@@ -110,7 +114,8 @@ def run(ctx):
     joined = False
     if withs:
         for lp in [x for x in ast.walk(withs[0]) if isinstance(x, ast.For)]:
-            if 'q_tasks' in ast.unparse(lp.iter) and any(isinstance(c, ast.Call) and (X.dotted_attr(c.func) or '').endswith('.result')
+            tkn = (X.names_assigned_from(g.node, f'{qn}.call(') or ['q_tasks'])[0]
+            if tkn in ast.unparse(lp.iter) and any(isinstance(c, ast.Call) and (X.dotted_attr(c.func) or '').endswith('.result')
                                                            for c in ast.walk(lp)):
                 joined = not any(isinstance(x, (ast.Break,)) for x in ast.walk(lp))
     (ctx.judge('R3', 'futures joined in context') if joined else
@@ -155,9 +160,14 @@ def run(ctx):
     ctx.floor('R4', 'handler classes with handle()', nh, 4)
     R = m.get_class(RP, 'Reporter')
     afr = R.function('add_file_report')
-    apps = [c for c in ast.walk(afr.node) if isinstance(c, ast.Call) and X.dotted_attr(c.func) == 'reports.append']
-    ok = len(apps) == 1 and 'handler.handle(file_report)' in ast.unparse(apps[0]) and \
-        any(isinstance(l, ast.For) and 'self.handlers_reports.items()' in ast.unparse(l.iter) for l in ast.walk(afr.node))
+    fpar = [a.arg for a in afr.node.args.args][1]
+    hl = [l for l in ast.walk(afr.node) if isinstance(l, ast.For) and 'self.handlers_reports.items()' in ast.unparse(l.iter)
+          and isinstance(l.target, ast.Tuple) and len(l.target.elts) == 2]
+    ok = False
+    if len(hl) == 1:
+        hn_, rn_ = (ast.unparse(e) for e in hl[0].target.elts)
+        apps = [c for c in ast.walk(hl[0]) if isinstance(c, ast.Call) and X.dotted_attr(c.func) == f'{rn_}.append']
+        ok = len(apps) == 1 and f'{hn_}.handle({fpar})' in ast.unparse(apps[0])
     (ctx.judge('R4', 'one stored result per handler per report') if ok else
      ctx.violation('R4', 'Reporter.add_file_report', afr.where, 'add_file_report does not store exactly one handled result per handler'))
     ip = R.function('init_parallel')
@@ -226,8 +236,10 @@ def run(ctx):
                     elif isinstance(n, ast.AugAssign) and is_alias(t):
                         bad.append((n, f'augments the persistent config object {ast.unparse(t)}'))
             elif isinstance(n, ast.Call) and isinstance(n.func, ast.Attribute) and n.func.attr in MUT and is_alias(n.func.value):
-                if ast.unparse(n) in R5_EXEMPT:
-                    ctx.judge('R5', f'Linter.{meth}:{ast.unparse(n)}', nontrivial=False, facts={'exempt': R5_EXEMPT[ast.unparse(n)]})
+                shape = f'config.{n.func.attr}({", ".join(ast.unparse(a) for a in n.args)})' if isinstance(n.func.value, ast.Name) else ast.unparse(n)
+                if shape in R5_EXEMPT and all(isinstance(a, ast.Name) and a.id in [p.arg for p in f.node.args.args + f.node.args.kwonlyargs]
+                                              for a in n.args):
+                    ctx.judge('R5', f'Linter.{meth}:{shape}', nontrivial=False, facts={'exempt': R5_EXEMPT[shape]})
                     continue
                 bad.append((n, f'calls the mutating `{ast.unparse(n)[:70]}` on an alias of self.config'))
         n5 += 1
